@@ -18,7 +18,7 @@ TECHNIQUE = "controlled-scheduler exploration (deviation-bounded) of the real as
 RULE = ("scenario = driver x 1-3 callers, each (command kind, bus outcome) with kinds {non-query, yes/no, numeric, bitmap, generic, "
         "device-type query, send-twice, 24-bit query, 24-bit send-twice} and outcomes {silent, 0, 1, 0x42, 254, 255, framing error}; "
         "all schedules with <= d deviations (a timer deviation = the answer arrives late); Tridonic also two sends in flight inside "
-        "one transaction and duplicate reports; three queued callers with the middle one cancelled at every boundary; sync drivers: all kinds x all outcomes with scripted replies; "
+        "one transaction and duplicate reports; three queued callers with the middle one cancelled at every boundary; three commands as ONE sequence with pauses (late answers arrive between its commands); sync drivers: all kinds x all outcomes with scripted replies; "
         "states = distinct (scenario, results) observations, transitions = scheduler events")
 ASSUMPTIONS = [
     "gateway models keep the ground-truth outcome of every transmitted frame; each caller uses its own short address so answers identify their owner",
@@ -66,6 +66,22 @@ def make_world(driver, callers_spec, mode="plain", dup=False):
                 async with w.driver.transaction_lock:
                     return await asyncio.gather(*[w.driver.send(c, in_transaction=True) for c in cmds], return_exceptions=True)
             callers = [Caller("trx", co)]
+        elif mode == "seq":
+            # ONE caller: the commands as a sequence (a transaction) with a pause between them
+            from dali import sequences as seqs
+
+            def gen():
+                out = []
+                for n, c in enumerate(cmds):
+                    if n:
+                        yield seqs.sleep(0.1)
+                    r = yield c
+                    out.append(r)
+                return out
+
+            async def co(w):
+                return await w.driver.run_sequence(gen())
+            callers = [Caller("seq", co)]
         else:
             for i, c in enumerate(cmds):
                 async def co(w, c=c):
@@ -126,6 +142,11 @@ def judge_result(res, driver, kind, out, cmd, result, strict, case, who, others=
                               f"{driver} send({kind}): bus outcome for this command was {out}, but the caller was handed {got}, the answer to the "
                               f"command of the caller that had been cancelled while waiting for it ({who})", case)
                 return "stale-cancelled"
+            if got[1] in case.get("__only_before__", ()):
+                add_violation(res, f"C16:{driver}:stale-answer-not-flushed",
+                              f"{driver} send({kind}): handed {got}, another command's answer that had reached the driver BEFORE this command was "
+                              f"transmitted and should have been discarded by the pre-send flush ({who})", case)
+                return "stale-unflushed"
             if case.get("__late_before_start__"):
                 add_violation(res, f"C16:{driver}:stale-answer-not-flushed",
                               f"{driver} send({kind}): handed {got}, another command's answer that had arrived BEFORE this send started "
@@ -158,7 +179,42 @@ def judge(res, driver, spec, mode, w, obs, strict):
                 late_before[i] = first_timer is not None and any(first_timer < pos < ts and is_answer(b) for pos, b in w.deliveries)
     if w.status != "quiescent":
         add_violation(res, f"C16:{driver}:horizon", f"{driver} {spec}: step horizon reached", case)
-    if mode == "trx2":
+    if mode == "seq":
+        oc = obs["callers"][0]
+        if oc[0] != "returned":
+            if not (oc[0] == "raised" and oc[1] == "TimeoutError" and driver in ("luba", "sci") and not strict and w.late_timers):
+                add_violation(res, f"C16:{driver}:seq-caller:{oc[0]}", f"{driver} {spec} as one sequence: caller {oc}", case)
+            return ("seq", oc[0])
+        gwm = w.gateway
+        for j, ((kind, out), cmd, r) in enumerate(zip(spec, w.cmds, oc[1])):
+            others = [tuple(o) for i2, (k2, o) in enumerate(spec) if i2 != j]
+            cj = dict(case)
+            if w.late_timers:
+                cj["__late_ok__"] = True
+            if driver in ("luba", "sci"):
+                # was some backward-frame report handed to the driver BEFORE this command was even transmitted
+                # (and after the previous command of the sequence)?  Then the pre-send flush must have removed it.
+                key = (len(cmd.frame), cmd.frame.as_integer)
+                idx = next((n for n, wf in enumerate(gwm.wire) if wf[:2] == key), None)
+                if idx is not None:
+                    pj = gwm.wire_pos[idx]
+
+                    def is_answer(b):
+                        return (len(b) > 6 and b[1] == 0x31 and (b[6] >> 6) == 2 and b[2] == 5) if driver == "luba" else (len(b) == 5 and (b[0] & 0x0F) == 2)
+
+                    def answer_value(b):
+                        return b[7] if driver == "luba" else b[3]
+                    # values that reached the driver ONLY before this command went out: if the command is handed one of
+                    # these, the pre-send flush did not do its job (a value that also arrived afterwards proves nothing)
+                    # (a report injected at trace position q is processed by the next "run"; the command went out in the
+                    # batch of the "run" at pj - 1: processed strictly earlier = some "run" in q .. pj - 2)
+                    def settled(q):
+                        return any(w.trace[r] == "run" for r in range(q, pj - 1))
+                    before = {answer_value(b) for pos, b in w.deliveries if is_answer(b) and settled(pos)}
+                    after = {answer_value(b) for pos, b in w.deliveries if is_answer(b) and not settled(pos)}
+                    cj["__only_before__"] = sorted(before - after)
+            outs.append(judge_result(res, driver, kind, out, cmd, r, strict, cj, f"command {j + 1} of the sequence", others))
+    elif mode == "trx2":
         oc = obs["callers"][0]
         if oc[0] != "returned":
             add_violation(res, f"C16:{driver}:trx-caller:{oc[0]}", f"{driver} {spec} in one transaction: caller {oc}", case)
@@ -348,6 +404,8 @@ def shards(tier):
     for drv in DRIVERS:
         for tr in (("num", "num", "num"), ("num", "yn", "dt"), ("dt", "num", "bits"), ("twice", "num", "num")):
             out.append(("cancelmid", drv, tr, 1 if tier == "quick" else 2))
+        for tr in (("num", "num", "num"), ("num", "off", "num"), ("dt", "num", "yn"), ("yn", "twice", "num")):
+            out.append(("seq", drv, tr, 2 if tier == "quick" else 3))
     out.append(("dup", 2 if tier == "quick" else 3))
     out.append(("sync",))
     return out
@@ -392,6 +450,11 @@ def run_shard(shard):
         for oc in ((("value", 1), ("value", 2), ("value", 3)), (("none",), ("value", 9), ("value", 0x42))):
             outs |= {(tr, oc, o) for o in _explore(res, drv, list(zip(tr, oc)), "cancelmid", bound)}
         sample(res, {"driver": drv, "middle_caller_cancelled": list(tr), "bound": bound})
+    elif k == "seq":
+        _, drv, tr, bound = shard
+        for oc in ((("value", 0x11), ("value", 0x22), ("none",)), (("none",), ("value", 9), ("value", 0x42)), (("value", 1), ("none",), ("value", 3))):
+            outs |= {(tr, oc, o) for o in _explore(res, drv, list(zip(tr, oc)), "seq", bound)}
+        sample(res, {"driver": drv, "commands_as_one_sequence": list(tr), "bound": bound})
     elif k == "trx2":
         _, ka, kb, bound = shard
         for oa, ob in OUT_PAIRS:
